@@ -14,6 +14,9 @@ func intHeavyTables(r *RNG, n int) []*hTable {
 	var ts []*hTable
 	for i := 0; i < n; i++ {
 		nc := r.Range(2, 9)
+		if r.Chance(1, 6) {
+			nc = r.Range(66, 130) // signedness of columns at ordinal 64 and beyond (nothing about a column depends on its ordinal)
+		}
 		t := &hTable{id: uint64(200 + i*3), db: "d" + randName(r, 2), name: fmt.Sprintf("t%d", i)}
 		if r.Chance(1, 6) {
 			// ids at the ends of the 3- and 4-byte ranges (no id value is special to the replica)
